@@ -384,3 +384,110 @@ def sched_strategy():
       st.sampled_from(["step", "epoch"]),
       st.sampled_from([1, 1, 1, 2, 3, 4]), st.sampled_from([0, 0, 0, 1, 2, 5]),
       st.sampled_from([3.0, 1.0, 2.0, 0.5, 4.5, 2]), st.booleans())
+
+
+# ---------------------------------------------------------------------------
+# real training runs (Part D)
+
+FIT_IN, FIT_UNITS, FIT_BATCH = 5, 4, 8
+
+FIT_MODELS = [
+    # QDense(kernel, bias) -> QActivation
+    [{"kind": "QDense",
+      "kq": {"cls": "quantized_bits", "kw": {"bits": 3, "integer": 0,
+                                             "symmetric": 1, "alpha": 1.0}},
+      "bq": {"cls": "quantized_bits", "kw": {"bits": 3, "integer": 0,
+                                             "symmetric": 1, "alpha": 1.0}}},
+     {"kind": "QActivation",
+      "q": {"cls": "quantized_relu", "kw": {"bits": 3, "integer": 1}}}],
+    [{"kind": "QDense",
+      "kq": {"cls": "quantized_po2", "kw": {"bits": 4}}, "bq": None},
+     {"kind": "QActivation",
+      "q": {"cls": "quantized_bits", "kw": {"bits": 4, "integer": 1},
+            "as_str": True}}],
+    [{"kind": "QActivation",
+      "q": {"cls": "quantized_relu", "kw": {"bits": 4, "integer": 1,
+                                            "negative_slope": 0.25,
+                                            "use_ste": False}}},
+     {"kind": "QDense",
+      "kq": {"cls": "quantized_bits", "kw": {"bits": 4, "integer": 0,
+                                             "symmetric": 1}},
+      "bq": {"cls": "quantized_bits", "kw": {"bits": 4, "integer": 1,
+                                             "qnoise_factor": 0.5}}},
+     {"kind": "QActivation",
+      "q": {"cls": "quantized_linear", "kw": {"bits": 4, "integer": 1}}}],
+    [{"kind": "QDense",
+      "kq": {"cls": "quantized_linear", "kw": {"bits": 4, "integer": 0,
+                                               "alpha": 1.0}},
+      "bq": {"cls": "ternary", "kw": {}}},
+     {"kind": "QActivation",
+      "q": {"cls": "quantized_relu_po2", "kw": {"bits": 4}}}],
+]
+
+FIT_SCHEDS = [
+    {"start": 1, "finish": 3, "update_freq": 1, "initial_step_or_epoch": 0,
+     "exponent": 2.0, "use_ste": True},
+    {"start": 0, "finish": 4, "update_freq": 2, "initial_step_or_epoch": 1,
+     "exponent": 3.0, "use_ste": False},
+    {"start": 2, "finish": 2, "update_freq": 1, "initial_step_or_epoch": 0,
+     "exponent": 3.0, "use_ste": True},
+    {"start": 0, "finish": 6, "update_freq": 3, "initial_step_or_epoch": 0,
+     "exponent": 0.5, "use_ste": True},
+]
+
+
+def fit_cases(tier):
+  """Deterministic list of Part-D cases."""
+  out = []
+  ms = FIT_MODELS if tier != "quick" else FIT_MODELS[:3]
+  ss = FIT_SCHEDS if tier != "quick" else FIT_SCHEDS[:2]
+  k = 0
+  for mi, layers in enumerate(ms):
+    for sched in ss:
+      for ft in ("step", "epoch"):
+        for lazy in (True, False):
+          if ft == "step":
+            epochs, spe = 2, 3
+          else:
+            epochs, spe = 5, 2
+          out.append({"part": "D", "layers": layers,
+                      "sched": dict(sched, freq_type=ft), "lazy": lazy,
+                      "epochs": epochs, "steps_per_epoch": spe,
+                      "seed": 100 + k})
+          k += 1
+  return out
+
+
+def fit_data(seed):
+  rs = np.random.RandomState(seed)
+  x = rs.uniform(-1.5, 1.5, size=(FIT_BATCH, FIT_IN)).astype(F32)
+  return x
+
+
+def build_fit_model(case, probe_cls):
+  """Sequential model of real qkeras layers with seeded constant weights,
+  ending in a probe layer that records what the (compiled) step computed."""
+  import tensorflow as tf  # pylint: disable=g-import-not-at-top
+  import qkeras  # pylint: disable=g-import-not-at-top
+  rs = np.random.RandomState(case["seed"] + 1)
+  layers = []
+  if not case["lazy"]:
+    layers.append(tf.keras.layers.InputLayer(input_shape=(FIT_IN,)))
+  width = FIT_IN
+  for spec in case["layers"]:
+    if spec["kind"] == "QDense":
+      kern = rs.uniform(-1.0, 1.0, size=(width, FIT_UNITS)).astype(F32)
+      bias = rs.uniform(-1.0, 1.0, size=(FIT_UNITS,)).astype(F32)
+      layers.append(qkeras.QDense(
+          FIT_UNITS, kernel_quantizer=make_q(spec.get("kq")),
+          bias_quantizer=make_q(spec.get("bq")),
+          kernel_initializer=tf.keras.initializers.Constant(kern),
+          bias_initializer=tf.keras.initializers.Constant(bias)))
+      width = FIT_UNITS
+    elif spec["kind"] == "QActivation":
+      layers.append(qkeras.QActivation(make_q(spec["q"])))
+    else:
+      raise ValueError(spec["kind"])
+  probe = probe_cls((FIT_BATCH, width))
+  layers.append(probe)
+  return tf.keras.Sequential(layers), probe, width
